@@ -28,7 +28,7 @@ Ltac leaf :=
 
 Ltac crush :=
   repeat (match goal with
-  | |- context [match ?s with [] => _ | _ :: _ => _ end] => is_var s; destruct s as [|[| ? | ? | | ] ?]
+  | |- context [match ?s with [] => _ | _ :: _ => _ end] => is_var s; destruct s as [|[| ? | ? | | ? | ] ?]
   | |- context [if ?b then _ else _] => destruct b eqn:?
   end; cbn beta iota); leaf.
 
@@ -52,7 +52,7 @@ Proof.
   destruct (match osch with
             | Some SchBasic => _ | Some SchBearer => _ | _ => _ end) as [attempted a1].
   simpl in H1. clear F1.
-  destruct script as [|[| hdr | id | | ] script1]; try (leaf; fail).
+  destruct script as [|[| hdr | id | | sid | ] script1]; try (leaf; fail).
   destruct (parse hdr) as [[| |] ps] eqn:Ech; try (leaf; fail).
   - unfold fetch_basic, final_send. crush.
   - set (scopes := if is_empty (get_param s_scope ps) then _ else _).
@@ -70,7 +70,7 @@ Qed.
 Ltac eleaf := simpl; try reflexivity.
 Ltac ecrush :=
   repeat (match goal with
-  | |- context [match ?s with [] => _ | _ :: _ => _ end] => is_var s; destruct s as [|[| ? | ? | | ] ?]
+  | |- context [match ?s with [] => _ | _ :: _ => _ end] => is_var s; destruct s as [|[| ? | ? | | ? | ] ?]
   | |- context [if ?b then _ else _] => destruct b eqn:?
   | |- context [match cache_get_token ?f ?c ?h ?s ?k with Some _ => _ | None => _ end] =>
     destruct (cache_get_token f c h s k) eqn:?
@@ -86,15 +86,15 @@ Lemma do_request_rd_eq clean cf c rq script :
 Proof.
   unfold do_request, do_request_rd, rd_scheme, rd_tok1, rd_tok2. cbv zeta.
   destruct (cache_get_scheme (cf_flavour cf) c (rq_host rq)) as [[| |]|].
-  - destruct script as [|[| hdr | id | | ] script1]; try reflexivity.
+  - destruct script as [|[| hdr | id | | sid | ] script1]; try reflexivity.
     destruct (parse hdr) as [[| |] ps]; try reflexivity; unfold fetch_basic, fetch_bearer_plan, final_send; ecrush.
   - destruct (cache_get_token (cf_flavour cf) c (rq_host rq) SchBasic []);
-      (destruct script as [|[| hdr | id | | ] script1]; try reflexivity;
+      (destruct script as [|[| hdr | id | | sid | ] script1]; try reflexivity;
        destruct (parse hdr) as [[| |] ps]; try reflexivity; unfold fetch_basic, fetch_bearer_plan, final_send; ecrush).
   - destruct (cache_get_token (cf_flavour cf) c (rq_host rq) SchBearer _);
-      (destruct script as [|[| hdr | id | | ] script1]; try reflexivity;
+      (destruct script as [|[| hdr | id | | sid | ] script1]; try reflexivity;
        destruct (parse hdr) as [[| |] ps]; try reflexivity; unfold fetch_basic, fetch_bearer_plan, final_send; ecrush).
-  - destruct script as [|[| hdr | id | | ] script1]; try reflexivity.
+  - destruct script as [|[| hdr | id | | sid | ] script1]; try reflexivity.
     destruct (parse hdr) as [[| |] ps]; try reflexivity; unfold fetch_basic, fetch_bearer_plan, final_send; ecrush.
 Qed.
 
